@@ -54,7 +54,7 @@ def main():
   sigs = signatures()
   rnd.shuffle(sigs)
   nsig = 45 if tier == 'quick' else 400
-  kwpool = ['p0', 'a0', 'a1', 'k0', 'k1', 'zz']
+  kwpool = ['p0', 'a0', 'a1', 'k0', 'k1', 'zz', 'args', 'kw']   # incl. keywords named like the *args / **kw parameters
   kwsets = [()] + [(k,) for k in kwpool] + list(itertools.combinations(kwpool, 2))
   violations = []
   calls = 0
@@ -115,7 +115,7 @@ def main():
       violations=violations,
       bounded=[dict(function='SignedFunction._map_args through the VM (InterpreterFunction.call)',
                     bound='%d signatures (<=2 positional-only, <=2 positional-or-keyword, <=2 keyword-only, defaults, *args, **kw) x %s call shapes (<=4 positionals, <=2 keywords)' % (
-                        min(nsig, len(sigs)), '40 sampled' if tier == 'quick' else 'all 110'), cases=calls)],
+                        min(nsig, len(sigs)), '40 sampled' if tier == 'quick' else 'all 185'), cases=calls)],
       spec_validation=[dict(spec='bind_ok/bound_value (z3) vs real calls: the kernel is proved equal to the spec, and the VM is compared with real calls here')],
       counts=dict(calls=calls, distinct_shapes=len(nontrivial)))))
 
